@@ -65,6 +65,10 @@ type ScnCfg struct {
 	// texts) plus an application-defined post-processor that rewrites the tag arguments of every property it is shown;
 	// nothing of it is observed and nothing of it may reach the scenario
 	Foreign bool `json:"foreign"`
+	// after the start and before the lookups, ANOTHER App is started in this process over fresh instances of every other
+	// component of the scenario (so with a different set of names); the lookups - which create the lazy components of the
+	// scenario's App - come after it and must not see anything of it
+	Later bool `json:"later"`
 }
 
 type Event struct {
@@ -662,6 +666,35 @@ func (*argRewriter) PostProcessProperties(ps []*component_definition.Property, c
 	return nil, nil
 }
 
+// laterStart: another application of the same process, started while the scenario's App is alive (between its start and
+// the lookups that create its lazy components), over fresh instances of every other component of the scenario
+func laterStart(cfg *ScnCfg, back *Scn) {
+	defer func() { Current = back }()
+	s2 := &Scn{Cfg: cfg, Origs: map[OKey]int{}, Proxies: map[uintptr][2]int{}, EarlyMade: map[[2]int]any{}}
+	var comps []any
+	for i := range cfg.Comps {
+		if i%2 == 1 {
+			continue
+		}
+		c := &cfg.Comps[i]
+		ctor, ok := Ctors[c.Ctor]
+		if !ok {
+			return
+		}
+		in := ctor(Base{C: c, S: s2})
+		s2.Origs[okey(reflect.ValueOf(in))] = c.Rank
+		comps = append(comps, in)
+	}
+	s2.Instances = comps
+	Current = s2
+	guard(func() {
+		a := app.NewApp()
+		s2.App = a
+		_ = a.Run(app.LogLevel(syslog.LvPanic), app.SetConfigLoader(loader.NewRawLoader([]byte(cfg.Config))),
+			func(x *app.App) { guard(func() { app.SetComponents(comps...)(x) }) })
+	})
+}
+
 // foreignStart: another application of the same process, started and forgotten before the scenario
 func foreignStart(cfg *ScnCfg) {
 	s2 := &Scn{Cfg: cfg, Origs: map[OKey]int{}, Proxies: map[uintptr][2]int{}, EarlyMade: map[[2]int]any{}}
@@ -822,6 +855,9 @@ func runOnce(cfg *ScnCfg, s *Scn, insts []any) (res Result) {
 	}
 	res.Fields = s.observeFields(objs)
 	if res.Outcome == "ok" || res.Outcome == "err" {
+		if cfg.Later {
+			laterStart(cfg, s)
+		}
 		mark := len(s.Log)
 		for _, name := range cfg.Lookups {
 			lo := LookupObs{Name: name, Tok: Token{-1, -1}}
